@@ -30,6 +30,8 @@ def alphabet():
         ('ch-good', T.enc_contact(0)),
         ('ch-bad-magic', T.enc_contact(0, magic=b'dtn?')),
         ('ch-v3', v3_header()),
+        ('ch-v5', T.enc_contact(0, version=5)),
+        ('ch-v255', T.enc_contact(0, version=255)),
         ('sess-init', T.enc_sess_init(0, 64, 1000, b'dtn://peer/')),
         ('seg-SE-5', T.enc_segment(3, 5, b'ab', [tl(2)])),
         ('seg-S-6', T.enc_segment(2, 6, b'a', [tl(2)])),
@@ -54,7 +56,8 @@ OCTETS = [a[1] for a in alphabet()]
 class Ref(object):
     '''Reference model of what R (passive) owes the peer.'''
 
-    def __init__(self):
+    def __init__(self, role='passive'):
+        self.role = role
         self.phase = 'contact'     # contact, init, est, term, desync, dead
         self.own = 'queued'        # queued, sent, acked, refused
         self.partial = None        # (id, data) of the inbound transfer in progress
@@ -69,14 +72,17 @@ class Ref(object):
         if ph == 'contact':
             if name == 'ch-good':
                 self.phase = 'init'
-                return ('exact', ['CONTACT'])
+                # the passive side answers with its header, the active side (header already
+                # written when it connected) goes on with SESS_INIT
+                return ('exact', ['CONTACT'] if self.role == 'passive' else ['SESS_INIT'])
             self.phase = 'dead'
             return ('refusal-final',)
         if ph == 'init':
             if name == 'sess-init':
                 self.phase = 'est'
                 self.own = 'sent'
-                return ('exact', ['SESS_INIT', ('XFER_SEGMENT', 3, 1, OWN)])
+                own = [('XFER_SEGMENT', 3, 1, OWN)]
+                return ('exact', (['SESS_INIT'] if self.role == 'passive' else []) + own)
             if name in ('keepalive', 'msg-reject'):
                 return ('exact', [])
             if name == 'unknown-type':
@@ -157,7 +163,7 @@ class AdvWorld(PeerWorld):
     def __init__(self, params):
         self.depth = 0
         self.history = []
-        self.ref = Ref()
+        self.ref = Ref((params or {}).get('role', 'passive'))
         self.parser = T.StreamParser()
         self.parsed_upto = 0
         self.popped = []
@@ -166,8 +172,10 @@ class AdvWorld(PeerWorld):
         self.max_depth = prm.pop('max_depth', 3)
         self.epilogue = prm.pop('epilogue', True)
         PeerWorld.__init__(self, prm)
-        # R has not written anything yet (passive) - consume
-        self.new_output()
+        # nothing written yet (passive) or just the own contact header (active) - consume
+        first = summarise(self.new_output())
+        if first != ([] if prm['role'] == 'passive' else ['CONTACT']):
+            raise HarnessError('unexpected initial output %r' % (first,))
 
     def canon_extra(self, c):
         PeerWorld.canon_extra(self, c)
@@ -357,27 +365,30 @@ def scenarios(tier):
     depth = 6 if tier == "thorough" else 5
     out = []
     # the space is split by the first two peer messages so that it spreads over the workers
-    for first in ('ch-bad-magic', 'ch-v3'):
-        out.append(dict(name='%s' % first, kind='graph', params=dict(max_depth=depth, prefix=[first]), dev_bound=0,
-                        max_states=2000000, liveness=False, validate_every=20, weight=1))
-    for name in NAMES:
-        if name.startswith('ch-'):
-            continue
-        out.append(dict(name='ch-good+%s' % name, kind='graph', params=dict(max_depth=depth, prefix=['ch-good', name]),
-                        dev_bound=0, max_states=2000000, liveness=False, validate_every=20,
-                        weight=100 if name == 'sess-init' else 10))
+    for role in ('passive', 'active'):
+        tag = '' if role == 'passive' else 'active/'
+        for first in ('ch-bad-magic', 'ch-v3', 'ch-v5', 'ch-v255'):
+            out.append(dict(name='%s%s' % (tag, first), kind='graph', params=dict(max_depth=depth, prefix=[first], role=role),
+                            dev_bound=0, max_states=2000000, liveness=False, validate_every=20, weight=1))
+        for name in NAMES:
+            if name.startswith('ch-'):
+                continue
+            out.append(dict(name='%sch-good+%s' % (tag, name), kind='graph',
+                            params=dict(max_depth=depth, prefix=['ch-good', name], role=role),
+                            dev_bound=0, max_states=2000000, liveness=False, validate_every=20,
+                            weight=100 if name == 'sess-init' else 10))
     return out
 
 
 ASSUMPTIONS = [
     'the peer writes whole well-formed messages and R runs to quiescence between them (chunking is C07)',
-    'the first thing a peer sends is some contact header (good, bad magic, TCPCLv3); anything else at that point is the bad-magic case',
+    'the first thing a peer sends is some contact header (good, bad magic, TCPCLv3, version 5 or 255); anything else at that point is the bad-magic case',
     'after the peer\'s own SESS_TERM, after an unknown message type (framing lost) and after closure only "no escaped exception, output decodable" is required',
     'a refusal may be MSG_REJECT, SESS_TERM or closing the connection',
 ]
 
-RULE = ('explicit-state BFS: every sequence of adversarial messages (17-message alphabet incl. bad headers, out-of-place '
-        'and unknown-id messages, unknown type) up to the depth bound, in every reachable state of a real passive endpoint '
+RULE = ('explicit-state BFS: every sequence of adversarial messages (19-message alphabet incl. bad headers, out-of-place '
+        'and unknown-id messages, unknown type) up to the depth bound, in every reachable state of a real endpoint (passive and active role) '
         'holding one transfer of its own; reference receiver model decides expected ACKs/deliveries/refusals; an epilogue '
         'with a correct transfer in each direction is run from every in-session state')
 
